@@ -295,6 +295,41 @@ func C13(ctx *core.Ctx) int {
 			}
 			os.RemoveAll(dir)
 		}
+		// independent of run: the same command into a directory that still holds the (longer) files of an earlier run
+		{
+			dir := ctx.TempPath(".n")
+			os.MkdirAll(dir, 0o755)
+			file := filepath.Join(dir, "in.dsl")
+			os.WriteFile(file, []byte(text), 0o644)
+			for _, l := range api.Langs {
+				if first[l] == "" || len(seen[l]) != 1 {
+					continue // not generated, or not even stable between fresh runs (reported above)
+				}
+				out := filepath.Join(dir, "out_"+l)
+				if r := runCLI(dir, 120*time.Second, bin, "compile", "-f", file, langFlag[l], "out_"+l); r.crashed || r.exit != 0 {
+					continue
+				}
+				filepath.Walk(out, func(pth string, info os.FileInfo, err error) error {
+					if err == nil && !info.IsDir() {
+						if f, e := os.OpenFile(pth, os.O_APPEND|os.O_WRONLY, 0o644); e == nil {
+							f.WriteString("\n/* tail of a longer file written by an earlier run */\n")
+							f.Close()
+						}
+					}
+					return nil
+				})
+				if r := runCLI(dir, 120*time.Second, bin, "compile", "-f", file, langFlag[l], "out_"+l); r.crashed || r.exit != 0 {
+					continue
+				}
+				atomic.AddInt64(&st.traces, 1)
+				if t := dirTree(out); t != first[l] {
+					ctx.Report("observed with the un-instrumented binary|the "+l+" tree depends on what an earlier run left in the output directory|"+progName(p.Name),
+						fmt.Sprintf("program %s: compiled into a directory holding longer files of the same names\nfirst difference: %s", p.Name, firstDiffLine(first[l], t)),
+						map[string]any{"name": p.Name, "text": text, "lang": l})
+				}
+			}
+			os.RemoveAll(dir)
+		}
 		for _, l := range api.Langs {
 			v, ok := enumerated.Load(p.Name + "|" + l)
 			if !ok {
